@@ -193,6 +193,11 @@ Fixpoint all_some {A} (l:list (option A)) : option (list A) :=
   | None :: _ => None
   end.
 
+(** a struct value stores its fields in the order of the type's declaration, whatever the order in which
+    the keyed literal that built it was written: [arrange decl written] looks every declared field up *)
+Definition arrange {A} (decl:list string) (written:list (string * A)) : option (list (string * A)) :=
+  all_some (map (fun f => option_map (pair f) (lookup f written)) decl).
+
 (** insertion sort, stable *)
 Fixpoint insert_by {A} (le:A -> A -> bool) (x:A) (l:list A) : list A :=
   match l with
